@@ -228,6 +228,10 @@ EXPORT errno_t _wcsrtombs_s_chk(size_t *restrict retvalp, char *restrict dest,
         if (dest) {
             memset(&dest[l], 0, dmax - l);
         }
+#else
+        if (dest) {
+            dest[l] = '\0';
+        }
 #endif
         rc = EOK;
     } else {
